@@ -118,3 +118,13 @@ package note
 //@   inlines note.ParseDegree
 //@   requires spec.validInterval(value, qual(name)) && value < 18446744073709551616
 //@   ensures err == nil && r.Value == value && r.Name == name
+
+// ---- nonsense durations are refused (C09) ----
+//@ func Value.validate returns (err)
+//@   pure
+//@   ensures (err == nil) == (v.Denom >= 1 && v.Num >= 1)
+
+//@ func NewValue returns (v, err)
+//@   pure
+//@   ensures (err == nil) == (denom >= 1 && num >= 1)
+//@   ensures v.Num == num && v.Denom == denom
